@@ -45,16 +45,33 @@ Theorem T18_crash_safe_resumed_refuted : exists n0 c0 h j st,
 Proof. exact resumed_unsafe. Qed.
 
 (* Protocol part (Model/ResumeProto.v): for time evolutions and ground-state searches, every final
-   time / max_sweeps T, step N, error function, for EVERY snapshot k of the uninterrupted run: resuming
-   from it finishes, with the same final time and the same sequence of record times (none lost, none
-   duplicated); if the accumulated error is part of the resume data, with identical records. *)
+   time / max_sweeps T, step N, error function, every setting of the options measure_initial and group_sites,
+   for EVERY snapshot k of the uninterrupted run: resuming from it finishes, with the same final time, the
+   same sequence of record times (none lost, none duplicated) and the same grouping of the state; if the
+   accumulated error is part of the resume data, in the identical final machine state (identical records). *)
 Theorem T18_resume_measurements : forall c k m,
   at_snapshot c (p_iter c k p_init) = true ->
   is_done (p_iter c m p_init) = true ->
   let r := p_iter c m (p_resume c (p_iter c k p_init)) in
   is_done r = true /\ s_t r = s_t (p_iter c m p_init) /\ times r = times (p_iter c m p_init) /\
+  s_g r = s_g (p_iter c m p_init) /\
   (c_restore c = true -> r = p_iter c m p_init).
 Proof. exact resume_measurements. Qed.
+
+(* The option group_sites across a resume (Simulation.group_sites_for_algorithm runs in run() and in resume_run();
+   guard: group psi iff not loaded_from_checkpoint or psi.grouped < group_sites).  For every configuration and
+   EVERY snapshot: the psi stored in the snapshot carries the grouping of the fresh run; the resume does not group
+   it again (s_g unchanged), so that psi.grouped = group_sites = the factor by which the freshly built model is
+   grouped; and both the uninterrupted and the resumed run end with an ungrouped state.  g_enter is tied to
+   the code by the correspondence streams group-guard / real-resume (Model/ResumeProto.v check_group, check_proto). *)
+Theorem T18_resume_grouping : forall c k m,
+  at_snapshot c (p_iter c k p_init) = true ->
+  is_done (p_iter c m p_init) = true ->
+  let s := p_iter c k p_init in
+  s_g (p_resume c s) = s_g s /\ s_g s = g_enter false (c_group c) [] /\
+  (1 <= c_group c -> prod_nat (s_g (p_resume c s)) = c_group c) /\
+  s_g (p_iter c m p_init) = [] /\ s_g (p_iter c m (p_resume c s)) = [].
+Proof. exact resume_grouping. Qed.
 
 (* REFUTED for the records themselves on the time-evolution protocol WITHOUT restoring the accumulated
    error (c_restore = false: the behaviour of the tree before /repo commit b662f88, finding F12, where
@@ -73,14 +90,24 @@ Proof. vm_compute. tauto. Qed.
 Example ex_strict_history :
   run_history true true 3 11 [(2, 4)] = Some (1, mkFs (Partial 2) (Complete 1)).
 Proof. vm_compute. reflexivity. Qed.
-Example ex_te_run : is_done (p_iter (mkCfg TE 3 2 (fun _ => 1) true) 12 p_init) = true /\
-                    times (p_iter (mkCfg TE 3 2 (fun _ => 1) true) 12 p_init) = [0; 2; 4].
+Example ex_te_run : is_done (p_iter (mkCfg TE 3 2 (fun _ => 1) true true 1) 12 p_init) = true /\
+                    times (p_iter (mkCfg TE 3 2 (fun _ => 1) true true 1) 12 p_init) = [0; 2; 4].
 Proof. exact te_finishes. Qed.
-Example ex_gs_run : is_done (p_iter (mkCfg GS 3 1 (fun _ => 0) true) 20 p_init) = true /\
-                    times (p_iter (mkCfg GS 3 1 (fun _ => 0) true) 20 p_init) = [0; 1; 2; 3; 4].
+Example ex_gs_run : is_done (p_iter (mkCfg GS 3 1 (fun _ => 0) true true 1) 20 p_init) = true /\
+                    times (p_iter (mkCfg GS 3 1 (fun _ => 0) true true 1) 20 p_init) = [0; 1; 2; 3; 4].
 Proof. exact gs_finishes. Qed.
-Example ex_snapshot : at_snapshot (mkCfg GS 3 1 (fun _ => 0) true) (p_iter (mkCfg GS 3 1 (fun _ => 0) true) 4 p_init) = true.
+Example ex_snapshot : at_snapshot (mkCfg GS 3 1 (fun _ => 0) true true 1) (p_iter (mkCfg GS 3 1 (fun _ => 0) true true 1) 4 p_init) = true.
 Proof. reflexivity. Qed.
+(* group_sites = 2, measure_initial = False: the run finishes ungrouped, its second snapshot holds psi.grouped = 2 *)
+Example ex_te_grouped_run :
+  let c := mkCfg TE 3 2 (fun _ => 1) true false 2 in
+  is_done (p_iter c 12 p_init) = true /\ times (p_iter c 12 p_init) = [2; 4] /\ s_g (p_iter c 12 p_init) = [] /\
+  at_snapshot c (p_iter c 6 p_init) = true /\ s_g (p_iter c 6 p_init) = [2].
+Proof. exact te_grouped_finishes. Qed.
+(* the strictness of the guard is what T18_resume_grouping rests on: grouping the checkpoint's psi once more would
+   give psi.grouped = 4 against a model grouped by 2 *)
+Example ex_regroup_doubles : prod_nat (2 :: g_enter false 2 []) = 4 /\ prod_nat (g_enter true 2 (g_enter false 2 [])) = 2.
+Proof. exact regroup_doubles. Qed.
 (* without safe_write a crash inside the second write loses everything: safe_write is a real premise *)
 Example ex_unsafe_without_safe_write : exists j st, In (j, st) (fresh_points false 2) /\ 1 <= j /\ loadable st = None.
 Proof. exact unsafe_without_safe_write. Qed.
@@ -115,5 +142,6 @@ Print Assumptions T18_crash_points_complete.
 Print Assumptions T18_crash_safe_resumed_partial.
 Print Assumptions T18_crash_safe_resumed_refuted.
 Print Assumptions T18_resume_measurements.
+Print Assumptions T18_resume_grouping.
 Print Assumptions T18_resume_eps_error_refuted.
 Print Assumptions T18_fix_output_filenames.
